@@ -954,7 +954,7 @@ class InstructionCollection:
         self.ShrCl = ShrCl
 
         class ShlCl(shift_cl_base):
-            r = 6
+            r = 4
             syntax = Syntax(["shl", " ", shift_cl_base.rm, ",", " ", "cl"])
 
         self.ShlCl = ShlCl
